@@ -1,6 +1,6 @@
 (* Extract/Codec.v — S-expression encoders / decoders for the model types (Appendix B of DESIGN) *)
 From Coq Require Import List Bool Ascii String ZArith.
-From FM Require Import Base.Result Base.Str Base.Sexp Base.AstOp Model.Ast Model.FM Model.PFM Format.Xml Format.Uvl.
+From FM Require Import Base.Result Base.Str Base.Sexp Base.AstOp Model.Ast Model.FM Model.PFM Format.Xml Format.Uvl Format.Afm.
 Import ListNotations.
 Open Scope string_scope.
 
@@ -386,6 +386,108 @@ Definition d_udoc (s : sexp) : option udoc :=
       match root_, ctcs_ with
       | Some r', Some c' => Some {| d_root := r'; d_ctcs := c' |}
       | _, _ => None
+      end
+  | _ => None
+  end.
+
+(* ---- AFM concrete syntax trees ---- *)
+Definition e_aitem (i : aitem) : sexp :=
+  match i with
+  | ISingle o n => e_tag "is" [e_bool o; SStr n]
+  | IGroup a b cs => e_tag "ig" [SStr a; SStr b; SList (map SStr cs)]
+  end.
+Definition d_aitem (s : sexp) : option aitem :=
+  match s with
+  | SList [SAtom _; o; SStr n] => option_map (fun b => ISingle b n) (d_bool o)
+  | SList [SAtom _; SStr a; SStr b; SList cs] => option_map (IGroup a b) (omap d_str cs)
+  | _ => None
+  end.
+Definition e_avalue (v : avalue) : sexp :=
+  match v with AvInt t => e_tag "vi" [SStr t] | AvText t => e_tag "vt" [SStr t] end.
+Definition d_avalue (s : sexp) : option avalue :=
+  match s with
+  | SList [SAtom k; SStr t] => if String.eqb k "vi" then Some (AvInt t) else Some (AvText t)
+  | _ => None
+  end.
+Definition e_adomain (d : adomain) : sexp :=
+  match d with
+  | ADiscrete l => e_tag "dd" (map e_avalue l)
+  | ARange l => e_tag "dr" (map (fun ab => SList [SStr (fst ab); SStr (snd ab)]) l)
+  end.
+Definition d_adomain (s : sexp) : option adomain :=
+  match s with
+  | SList (SAtom k :: args) =>
+      if String.eqb k "dd" then option_map ADiscrete (omap d_avalue args)
+      else option_map ARange (omap (fun x => match x with SList [SStr a; SStr b] => Some (a, b) | _ => None end) args)
+  | _ => None
+  end.
+Fixpoint e_aexpr (e : aexpr) : sexp :=
+  match e with
+  | EVar t => e_tag "ev" [SStr t] | ENum t => e_tag "en" [SStr t]
+  | EBin op a b => e_tag "eb" [SStr op; e_aexpr a; e_aexpr b]
+  | ENot a => e_tag "enot" [e_aexpr a] | EParen a => e_tag "ep" [e_aexpr a]
+  end.
+Fixpoint d_aexpr (s : sexp) : option aexpr :=
+  match s with
+  | SList [SAtom k; SStr t] => if String.eqb k "ev" then Some (EVar t) else if String.eqb k "en" then Some (ENum t) else None
+  | SList [SAtom _; SStr op; a; b] => match d_aexpr a, d_aexpr b with Some a', Some b' => Some (EBin op a' b') | _, _ => None end
+  | SList [SAtom k; a] => if String.eqb k "enot" then option_map ENot (d_aexpr a)
+                          else if String.eqb k "ep" then option_map EParen (d_aexpr a) else None
+  | _ => None
+  end.
+Definition e_actc (c : actc) : sexp :=
+  match c with
+  | CSimple e t => e_tag "cs" [e_aexpr e; SStr t]
+  | CBrackets w l => e_tag "cb" [SStr w; SList (map (fun et => SList [e_aexpr (fst et); SStr (snd et)]) l)]
+  end.
+Definition d_actc (s : sexp) : option actc :=
+  match s with
+  | SList [SAtom _; SStr w; SList l] =>
+      option_map (CBrackets w) (omap (fun x => match x with
+                                               | SList [e; SStr t] => option_map (fun e' => (e', t)) (d_aexpr e)
+                                               | _ => None end) l)
+  | SList [SAtom _; e; SStr t] => option_map (fun e' => CSimple e' t) (d_aexpr e)
+  | _ => None
+  end.
+Definition e_adoc (d : adoc) : sexp :=
+  e_tag "adoc"
+    [SList (map (fun rs => SList [SStr (rs_parent rs); SList (map e_aitem (rs_items rs))]) (ad_rels d));
+     match ad_attrs d with
+     | Some l => SList (map (fun a => SList [SStr (at_feature a); SStr (at_name a); e_adomain (at_domain a);
+                                              e_avalue (at_default a); e_avalue (at_null a)]) l)
+     | None => SAtom "nil"
+     end;
+     match ad_ctcs d with Some l => SList (map e_actc l) | None => SAtom "nil" end].
+Definition d_adoc (s : sexp) : option adoc :=
+  match s with
+  | SList [SAtom _; SList rels; attrs; ctcs] =>
+      let r := omap (fun x => match x with
+                              | SList [SStr p; SList items] =>
+                                  option_map (fun it => {| rs_parent := p; rs_items := it |}) (omap d_aitem items)
+                              | _ => None end) rels in
+      let a := match attrs with
+               | SAtom _ => Some None
+               | SList l =>
+                   option_map Some
+                     (omap (fun x => match x with
+                                     | SList [SStr f; SStr n; dm; dv; nv] =>
+                                         match d_adomain dm, d_avalue dv, d_avalue nv with
+                                         | Some dm', Some dv', Some nv' =>
+                                             Some {| at_feature := f; at_name := n; at_domain := dm';
+                                                     at_default := dv'; at_null := nv' |}
+                                         | _, _, _ => None
+                                         end
+                                     | _ => None end) l)
+               | _ => None
+               end in
+      let c := match ctcs with
+               | SAtom _ => Some None
+               | SList l => option_map Some (omap d_actc l)
+               | _ => None
+               end in
+      match r, a, c with
+      | Some r', Some a', Some c' => Some {| ad_rels := r'; ad_attrs := a'; ad_ctcs := c' |}
+      | _, _, _ => None
       end
   | _ => None
   end.
